@@ -192,7 +192,11 @@ def _frames(table_name, table=None):
 
 
 def check_probe(s: str, frames, viols, keyprefix=""):
-    from htmltools import html_escape
+    from htmltools import Tag, html_escape
+    # history first: the very first time this process escapes s, it is as an ATTRIBUTE value
+    # (a result cache keyed on the string alone would now hold the attribute-escaped form)
+    if s != PH:
+        Tag("i", title=s).get_html_string()
     he = html_escape(s)
     why = valid_escape(he, s, TEXT_MUST)
     if why:
